@@ -112,9 +112,12 @@ func (p *proxy) call(ctx erpc.UnknownCallCtx) (interface{}, *erpc.Status) {
 	}
 	label.ServiceMethod = ctx.ServiceMethod()
 	callcmd := p.callForwarder(&label).Call(label.ServiceMethod, ctx.InputBodyBytes(), &result, settings...)
-	callcmd.InputMeta().VisitAll(func(key, value []byte) {
-		ctx.SetMeta(goutil.BytesToString(key), goutil.BytesToString(value))
-	})
+	// no reply metadata when the backend call failed before a reply arrived
+	if meta := callcmd.InputMeta(); meta != nil {
+		meta.VisitAll(func(key, value []byte) {
+			ctx.SetMeta(goutil.BytesToString(key), goutil.BytesToString(value))
+		})
+	}
 	stat := callcmd.Status()
 	if !stat.OK() && stat.Code() < 200 && stat.Code() > 99 {
 		// do not rewrite stat in place: it may be a status shared between calls
